@@ -207,23 +207,34 @@ class PolyCtx:
         return sizeof(phi.ty[:-1]) or 1
 
     def phi_root(self, phi):
+        """the one object all values merged by `phi` point into (through other merges and pointer arithmetic), or None"""
         pr = self.__dict__.setdefault('_proot', {})
         if phi.res in pr:
-            return None if pr[phi.res] == '__pending__' else pr[phi.res]
-        pr[phi.res] = '__pending__'
-        roots = set()
-        for v, _ in phi.incoming:
-            if v == 'null' or v == 'undef':
-                roots.add(None); continue
-            r, o = self.ptr(v)
-            if r == phi.res:
-                continue                      # the phi itself advanced: same object
-            roots.add(r)
+            return pr[phi.res]
+        roots, seen, stack = set(), set(), [phi.res]
+        while stack:
+            x = stack.pop()
+            if x in seen:
+                continue
+            seen.add(x)
+            d = self.fn.defs.get(x)
+            if d is None or d.op not in ('phi', 'select'):
+                continue
+            for v in ([v for v, _ in d.incoming] if d.op == 'phi' else d.ops[1:]):
+                if v in ('null', 'undef'):
+                    roots.add(None); continue
+                base, n_ = v, 0
+                bd = self.fn.defs.get(base)
+                while bd is not None and bd.op in ('bitcast', 'getelementptr') and n_ < 16:
+                    base = bd.ops[0]; bd = self.fn.defs.get(base); n_ += 1
+                if bd is not None and bd.op in ('phi', 'select'):
+                    stack.append(base)
+                else:
+                    roots.add(self.C.val(base))
         R = next(iter(roots)) if len(roots) == 1 and None not in roots else None
         if R is not None and R.startswith('%'):
-            R = None                          # unresolved inner phi: keep this one opaque
+            R = None
         pr[phi.res] = R
-        self._memo.clear()
         return R
 
     def show(self, p):
